@@ -213,6 +213,13 @@ mod verif_c01_wit {
                     for w in ids.windows(2) {
                         assert_eq!(edges[w[0]].1, edges[w[1]].0, "edge {} -> edge {}: the route {:?} has a gap between edges {} and {}", o, d, ids, w[0], w[1]);
                     }
+                    // C03: the destination edge's record carries the state after the last edge of THIS route (by design it adds nothing), and the distance never decreases along the route
+                    let n = route.len();
+                    if n >= 3 {
+                        let (last, before) = (&route[n - 1].result_state, &route[n - 2].result_state);
+                        assert!(last.iter().zip(before.iter()).all(|(a, b)| a.0 == b.0), "edge {} -> edge {}: route {:?}: the destination edge's record holds {:?}, the state after the route's last edge is {:?}", o, d, ids, last, before);
+                    }
+                    for w in route.windows(2) { assert!(w[1].result_state[0].0 >= w[0].result_state[0].0, "edge {} -> edge {}: route {:?}: the distance decreases along the route", o, d, ids); }
                     checked += 1;
                 }
             } } }
